@@ -1,6 +1,7 @@
 import CentrifugeVerif.Proofs.WSMask
 import CentrifugeVerif.Proofs.WSHeader
 import CentrifugeVerif.Proofs.WSTrunc
+import CentrifugeVerif.Proofs.WSRoundtrip
 /-!
 # C30 — WebSocket messages round-trip through writer and reader
 -/
@@ -82,5 +83,84 @@ theorem truncWriter_short (chunks : List Bytes) (h : chunks.flatten.length ≤ 4
 
 example : (twWrites {} [[1, 2], [], [3, 4, 5, 6, 7, 8, 9], [10]]).2.flatten = [1, 2, 3, 4, 5, 6] ∧
     (twWrites {} [[1, 2], [], [3, 4, 5, 6, 7, 8, 9], [10]]).1.held = [7, 8, 9, 10] := by decide
+
+/-! ## Round trip -/
+
+/-- what makes a write operation admissible for the round-trip theorem: a data message type, fewer
+than 2^63 bytes, and for a compressed message the codec hypothesis — whatever chunks flate emits,
+they concatenate to a stream `dfl ++ 00 00 ff ff` which the peer's inflate maps back to the data -/
+def Writer.WOp.Admissible (peer : Cfg) : WOp → Prop
+  | .compressed t d chunks => isDataOp t = true ∧ peer.deflate = true ∧
+      ∃ dfl, chunks.flatten = dfl ++ deflateTail ∧ peer.inflate (dfl ++ deflateTail) = some d ∧
+        dfl.length < two63
+  | op => isDataOp op.typ = true ∧ op.data.length < two63
+
+theorem writeAll_decodes (peer : Cfg) (accept : Nat → Bool) (cfg : WCfg)
+    (hside : peer.server = !cfg.server) (hrl : peer.readLimit = 0) (hlim : peer.inflatedLimit = 0)
+    (hB : cfg.bufSize > 0) : ∀ (ops : List WOp) (c : WConn) (evs : List Event),
+    (∀ op ∈ ops, op.Admissible peer) → DecodesTo peer accept c.wire evs none → c.closeSent = false →
+    (writeAll cfg c ops).2 = true ∧
+    DecodesTo peer accept (writeAll cfg c ops).1.wire
+      (evs ++ ops.map (fun op => Event.msg op.typ op.data)) none := by
+  intro ops
+  induction ops with
+  | nil => intro c evs _ hd _; exact ⟨rfl, by simpa [writeAll] using hd⟩
+  | cons op ops ih =>
+    intro c evs hadm hd hopen
+    have hop := hadm op (List.mem_cons_self ..)
+    have hstep : ∃ c', writeOp cfg c op = (c', none) ∧ c'.closeSent = false ∧
+        DecodesTo peer accept c'.wire (evs ++ [Event.msg op.typ op.data]) none := by
+      cases op with
+      | message t d =>
+        exact writeMessagePlain_sync (comp := false) hside hrl hop.1 (fun h => by cases h) hB d rfl hd hopen hop.2
+      | streamed t ps =>
+        obtain ⟨c', h1, h2, h3⟩ := writeStreamed_sync (comp := false) hside hrl hop.1 (fun h => by cases h) hB ps
+          hd hopen hop.2 (by simp [Spec.deliver, Event.terminal])
+        exact ⟨c', h1, h2, by simpa [Spec.deliver, WOp.typ, WOp.data] using h3⟩
+      | strings t ps =>
+        exact writeStrings_sync (comp := false) hside hrl hop.1 (fun h => by cases h) hB ps rfl hd hopen hop.2
+      | prepared t d =>
+        exact writePrepared_sync hside hrl hop.1 d hd hopen hop.2
+      | compressed t d chunks =>
+        obtain ⟨ht, hdefl, dfl, hch, hcodec, hl⟩ := hop
+        exact writeCompressed_sync hside hrl ht hB hdefl hlim d dfl chunks hch hcodec hd hopen hl
+    obtain ⟨c', h1, h2, h3⟩ := hstep
+    have := ih c' (evs ++ [Event.msg op.typ op.data])
+      (fun o ho => hadm o (List.mem_cons_of_mem _ ho)) h3 h2
+    simp only [writeAll, h1, List.map_cons]
+    exact ⟨this.1, by simpa [List.append_assoc] using this.2⟩
+
+/-- **Round trip.**  For every script of data-message writes (`WriteMessage`, `NextWriter` with any
+pieces via `Write` or `WriteString`, prepared messages, compressed messages under the codec
+hypothesis with any chunking of the compressed stream), every write buffer size, both sides and
+any mask keys: every write succeeds, and the specification's decoder (strict RFC 6455 §5 rules,
+configured as the opposite side) reads from the bytes on the wire exactly the written messages, same
+types and bytes, in order, followed only by "incomplete" (the stream ends).  Since that decoder
+reports a protocol error for an unmasked client frame, a masked server frame, a reserved bit or a
+bad fragmentation, the wire is well-formed in particular. -/
+theorem write_then_read (peer : Cfg) (accept : Nat → Bool) (cfg : WCfg)
+    (hside : peer.server = !cfg.server) (hrl : peer.readLimit = 0) (hlim : peer.inflatedLimit = 0)
+    (hB : cfg.bufSize > 0) (ops : List WOp) (hadm : ∀ op ∈ ops, op.Admissible peer) :
+    (writeAll cfg {} ops).2 = true ∧
+    Spec.decode peer accept (writeAll cfg {} ops).1.wire =
+      ops.map (fun op => Event.msg op.typ op.data) ++ [.incomplete] := by
+  obtain ⟨h1, h2⟩ := writeAll_decodes peer accept cfg hside hrl hlim hB ops {} [] hadm
+    (decodesTo_nil peer accept) rfl
+  refine ⟨h1, ?_⟩
+  have := h2 [] ((writeAll cfg {} ops).1.wire.length + 1) 1 (by simp; omega) (by simp)
+  simpa [Spec.decode, Spec.decodeQ] using this
+
+/-- non-vacuity: a client with a 2-byte write buffer streams "abc" and writes "de" -/
+example : (writeAll { server := false, bufSize := 2, compress := false, keyAt := fun _ => ⟨1, 2, 3, 4⟩ } {}
+      [.streamed 1 [[0x61], [0x62, 0x63]], .message 2 [0x64, 0x65]]).1.wire =
+    [0x01, 0x82, 1, 2, 3, 4, 0x60, 0x60, 0x80, 0x81, 1, 2, 3, 4, 0x62,
+     0x82, 0x82, 1, 2, 3, 4, 0x65, 0x67] := by decide
+
+/-- non-vacuity of the codec hypothesis: "a" deflates (sync flush) to `4a 04 00 00 00 ff ff`, flate
+hands it over in two pieces, the peer's inflate knows that stream -/
+example : (WOp.compressed 1 [0x61] [[0x4a, 0x04], [0x00, 0x00, 0x00, 0xff, 0xff]]).Admissible
+    { server := false, deflate := true, readLimit := 0, inflatedLimit := 0,
+      inflate := fun b => if b = [0x4a, 0x04, 0x00, 0x00, 0x00, 0xff, 0xff] then some [0x61] else none } :=
+  ⟨rfl, rfl, [0x4a, 0x04, 0x00], rfl, by decide, by decide⟩
 
 end CentrifugeVerif.WS
